@@ -29,6 +29,7 @@ pub mod mpsc {
         pub uninterp spec fn chan(&self) -> int;
         pub uninterp spec fn is_open(&self) -> bool;
     }
+    pub mod error { pub struct SendError<T>(pub T); }
     #[verifier::external_body]
     pub fn unbounded_channel<T>() -> (r: (UnboundedSender<T>, UnboundedReceiver<T>))
         ensures r.0.chan() == r.1.chan()
